@@ -79,6 +79,10 @@ func init() {
 			if w.Batch == 2 {
 				c01TruncationRace(w, []string{"C01"})
 			}
+			if w.Batch == 3 {
+				// a wallet drained to zero between two truncations, then overspend probes
+				c06Drained(w, []string{"C01"})
+			}
 			runRandomScenarios(w, []string{"C01"}, w.Pick(12, 60), func(p *ledger.Profile) { p.POverdraft = 0.35; p.PForge = 0.2 }, nil)
 			c01Truncation(w)
 		},
@@ -132,6 +136,9 @@ func init() {
 			c10Genesis(w)
 			if w.Batch == 1 || (w.Thorough() && w.Batch%8 == 1) {
 				c10GossipPath(w)
+			}
+			if w.Batch == 2 || (w.Thorough() && w.Batch%8 == 2) {
+				c10Trusted(w)
 			}
 		},
 	})
